@@ -36,12 +36,15 @@ Lemma ts_rd_em : forall ps o c, ts_em (rd_em ps o c).
 Proof.
   induction ps as [|p r IH]; intros o c file t em t' TS H.
   - injection H as <- <-. rewrite app_nil_r. exact TS.
-  - destruct p as [b|n|n]; cbn [rd_em] in H.
+  - destruct p as [b|n|n|n]; cbn [rd_em] in H.
     + apply bind_ok in H. destruct H as ([e2 t2] & H2 & H). injection H as <- <-. cbn [fst snd].
       rewrite app_assoc. apply (IH o c (file ++ b) t e2 t2); [apply TableSound_app; exact TS|]. rewrite zlen_app'. exact H2.
     + apply bind_ok in H. destruct H as ([e1 t1] & H1 & H). apply bind_ok in H. destruct H as ([e2 t2] & H2 & H).
       injection H as <- <-. cbn [fst snd] in *.
       exact (ts_seq _ _ _ _ _ _ _ _ (ts_nm_em n o c) (IH o c) TS H1 H2).
+    + apply bind_ok in H. destruct H as ([e1 t1] & H1 & H). apply bind_ok in H. destruct H as ([e2 t2] & H2 & H).
+      injection H as <- <-. cbn [fst snd] in *.
+      exact (ts_seq _ _ _ _ _ _ _ _ (ts_nm_em n o false) (IH o c) TS H1 H2).
     + apply bind_ok in H. destruct H as ([e1 t1] & H1 & H). apply bind_ok in H. destruct H as ([e2 t2] & H2 & H).
       injection H as <- <-. cbn [fst snd] in *.
       exact (ts_seq _ _ _ _ _ _ _ _ (ts_nm_em n o false) (IH o c) TS H1 H2).
